@@ -13,7 +13,7 @@ RULE = (
 EXHAUSTIVE = {"quick": True, "thorough": True}
 SCOPE = {"quick": "all items over 2 keys of length <=4 x all valid op sequences of length <=6 with handles <=3",
          "thorough": "all items over 2 keys of length <=5 x all valid op sequences of length <=7 with handles <=3"}
-ASSUMPTIONS = ["keys are small integers (reflexive ==); key function and source do not fail (faults are C06's subject)"]
+ASSUMPTIONS = ["keys are small integers or the odd values None / 0 / False / () / '' (reflexive ==); key function and source do not fail (faults are C06's subject)"]
 
 
 def _items(case):
@@ -22,20 +22,47 @@ def _items(case):
     return [Item(i, k) for i, k in enumerate(case["keys"])]
 
 
-def _ops_async(case):
+# "odd" key values: what a key function may legitimately return and a careless `if key:` / `is None` mistakes for
+# "no key yet".  Each list is injective under ==, so key index <-> value is a bijection and the model (integer keys)
+# still applies.  With key == "none" the items themselves are these raw values (no model: items have no identity).
+KVALS = [[None, 0], [0, None], [None, ()], ["", None], [False, None], [None, 1, 0, ""], [(), 0, None, ""]]
+
+
+def _kv(case):
+    kv = case.get("kvals")
+    return None if kv is None else [tuple(v) if isinstance(v, list) else v for v in kv]
+
+
+def _key_index(kv, k):
+    for i, v in enumerate(kv):
+        if type(v) is type(k) and v == k:
+            return i
+    return "?%r" % (k,)
+
+
+def _setup(case):
+    """(items, sync key function or None, key -> reported key, item -> reported item)"""
+    kv = _kv(case)
     keys = case["keys"]
-    log = []
+    if kv is None:
+        items = [Item(i, k) for i, k in enumerate(keys)]
+        keyf = None if case["key"] == "none" else (lambda it: it.key)
+        return items, keyf, (lambda k: k.key if isinstance(k, Item) else k), (lambda it: it.id)
     if case["key"] == "none":
-        # without a key function the items are their own keys: use items equal by key, distinct by id
-        items = [Item(i, k) for i, k in enumerate(keys)]
-        keyf = None
+        items = [kv[k] for k in keys]
+        return items, None, (lambda k: _key_index(kv, k)), (lambda it: _key_index(kv, it))
+    items = [Item(i, k) for i, k in enumerate(keys)]
+    return items, (lambda it: kv[it.key]), (lambda k: _key_index(kv, k)), (lambda it: it.id)
+
+
+def _ops_async(case):
+    log = []
+    items, skey, key_out, item_out = _setup(case)
+    if skey is None or case["key"] == "sync":
+        keyf = skey
     else:
-        items = [Item(i, k) for i, k in enumerate(keys)]
-        if case["key"] == "sync":
-            keyf = lambda it: it.key  # noqa: E731
-        else:
-            async def keyf(it):
-                return it.key
+        async def keyf(it):
+            return skey(it)
     src, st = make_source(case["src"] if case["src"] != "list" else "iter", [("item", it) for it in items], "s0", log)
     gb = asyncstdlib.groupby(src) if keyf is None else asyncstdlib.groupby(src, keyf)
     groups, outs = [], []
@@ -50,7 +77,7 @@ def _ops_async(case):
                 outs.append(["exc", exc_name(res.exc)])
             else:
                 k, g = res.value
-                outs.append(["key", k.key if isinstance(k, Item) else k, len(groups)])
+                outs.append(["key", key_out(k), len(groups)])
                 groups.append(g)
         else:
             if op[1] >= len(groups):
@@ -62,7 +89,7 @@ def _ops_async(case):
             elif res.exc is not None:
                 outs.append(["exc", exc_name(res.exc)])
             else:
-                outs.append(["item", res.value.id])
+                outs.append(["item", item_out(res.value)])
         consumed[-1] = sum(1 for ev in log if ev[0] == "item")
     for k in range(len(consumed)):
         if consumed[k] is None:
@@ -85,9 +112,9 @@ class _Counting:
 
 
 def _ops_sync(case):
-    items = [Item(i, k) for i, k in enumerate(case["keys"])]
+    items, skey, key_out, item_out = _setup(case)
     cnt = _Counting(items)
-    gb = itertools.groupby(cnt) if case["key"] == "none" else itertools.groupby(cnt, lambda it: it.key)
+    gb = itertools.groupby(cnt) if skey is None else itertools.groupby(cnt, skey)
     groups, outs = [], []
     consumed = []
     for op in case["ops"]:
@@ -98,14 +125,14 @@ def _ops_sync(case):
             except StopIteration:
                 outs.append(["stop"])
             else:
-                outs.append(["key", k.key if isinstance(k, Item) else k, len(groups)])
+                outs.append(["key", key_out(k), len(groups)])
                 groups.append(g)
         else:
             if op[1] >= len(groups):
                 outs.append(["nogroup"])
                 continue
             try:
-                outs.append(["item", next(groups[op[1]]).id])
+                outs.append(["item", item_out(next(groups[op[1]]))])
             except StopIteration:
                 outs.append(["stop"])
         consumed[-1] = cnt.n
@@ -122,6 +149,8 @@ def observe(case):
 
 
 def model_request(case):
+    if case.get("kvals") is not None and case["key"] == "none":
+        return None     # raw odd values as items: no identities to compare; decided by the itertools oracle
     return {"m": "groupby", "items": [[i, k] for i, k in enumerate(case["keys"])],
             "ops": [op for op in case["ops"]]}
 
@@ -160,6 +189,8 @@ def judge(case, obs, model):
 
 def features(case, obs):
     f = ["len=%d" % len(case["keys"]), "ops=%d" % len(case["ops"]), "key=" + case["key"], "src=" + case["src"]]
+    if case.get("kvals") is not None:
+        f.append("odd-key-values")
     f.append("stale-advance" if any(
         op[0] == "grp" and op[1] < sum(1 for o in case["ops"][:i] if o[0] == "adv") - 1
         for i, op in enumerate(case["ops"])) else "no-stale")
@@ -202,6 +233,9 @@ def cases(tier, rng):
             for ops in _op_seqs(nops, maxh):
                 n += 1
                 yield {"keys": list(keys), "ops": ops, "key": keysm[n % 3], "src": srcs[n % len(srcs)]}
+                if n % 4 == 0 and ln >= 2:
+                    yield {"keys": list(keys), "ops": ops, "key": keysm[(n // 4) % 3], "src": srcs[n % len(srcs)],
+                           "kvals": KVALS[(n // 12) % 5]}
     nr = 3000 if tier == "quick" else 60000
     for _ in range(nr):
         ln = rng.randint(0, 10)
@@ -217,7 +251,10 @@ def cases(tier, rng):
             else:
                 h = nadv - 1 if rng.random() < 0.6 else rng.randrange(nadv)
                 ops.append(["grp", h])
-        yield {"keys": keys, "ops": ops, "key": rng.choice(keysm), "src": rng.choice(srcs)}
+        case = {"keys": keys, "ops": ops, "key": rng.choice(keysm), "src": rng.choice(srcs)}
+        if rng.random() < 0.3:
+            case["kvals"] = rng.choice(KVALS[5:] if nk > 2 else KVALS)
+        yield case
 
 
 def search_cases(broken, rng):
